@@ -515,6 +515,25 @@ def check_options_hash(ctx, R="C18.options"):
                 f".encode()); e.g. packing a number as a double maps 2**53 and 2**53 + 1 (and 1 and 1.0) to the same bytes, so a scene encoded under other options is accepted",
             )
     ctx.floor(R, n, 2, "hasher.update calls fed from the option keys / values")
+    # every option contributes: nothing skips an iteration of the loop over the keys, and the key is fed unconditionally
+    loops = [l for l in walk_local(fn) if isinstance(l, ast.For) and mp in lib.names_loaded(l.iter)]
+    if len(loops) != 1:
+        raise AnalysisError("shape not recognised: the loop over the options in deterministicHash")
+    lp = loops[0]
+    skips = [x for x in ast.walk(lp) if isinstance(x, (ast.Continue, ast.Break)) or (isinstance(x, ast.Return) and x is not None)]
+    key_updates = [c for c in ups if lib.names_loaded(c.args[0]) & keyvars and any(c is y for y in ast.walk(lp))]
+    conditional = [c for c in key_updates if lib.enclosing_tests(c, lp)]
+    if skips or conditional or not key_updates:
+        where = skips[0] if skips else (conditional[0] if conditional else lp)
+        ctx.finding(
+            R,
+            where,
+            "an option can be left out of the hash",
+            f"deterministicHash does not feed every key of the mapping to the hash (`{norm_text(where, 50)}` skips some): an option given with such a value (e.g. None / False) hashes like "
+            f"an option that was not given at all, so a cache or an encoded scene produced under other options is accepted",
+        )
+    else:
+        ctx.ok(R, lp, "every key of the mapping contributes to the hash, whatever its value")
 
 
 def check_divergence(ctx, R="C18.divergence"):
